@@ -214,8 +214,177 @@ fn check_pool_expr(st: &mut Stats, pool: &Pool, expr: &str, open: bool, counters
                                 }
                                 Out::Limit => {}
                                 other => {
-                                    let sig = if open && expr.contains("(if ") { "evaluator/variables-in-if-branches-replaced-by-their-names".to_string() } else { format!("residual-differs/{}", pool.name) };
+                                    let quoted_name = ["A", "B"].iter().any(|n| res.contains(&format!("(1 . {})", n)) || res.contains(&format!("(q . {})", n)));
+                                    let sig = if open && expr.contains("(if ") && quoted_name { "evaluator/variables-in-if-branches-replaced-by-their-names".to_string() } else { format!("residual-differs/{}", pool.name) };
                                     st.violation(&sig, format!("pool {}: {} -> residual {}; on {} the original returns {}, the residual {}", pool.name, expr, res, a.short(), v.short(), other.short()), expr.len(), replay.clone());
+                                }
+                            }
+                        }
+                    }
+                }
+            }
+        }
+    }
+}
+
+/// names bound anywhere inside an expression (let / assign / lambda), to rule out shadowing of a substituted name
+fn bound_names(e: &crate::lang::E, out: &mut Vec<String>) {
+    use crate::lang::E;
+    match e {
+        E::Var(_) | E::Lit(_, _) | E::Quote(_) | E::QuoteSym(_) => {}
+        E::Prim(_, a) | E::List(a) | E::MacroCall(_, a) => a.iter().for_each(|x| bound_names(x, out)),
+        E::If(c, t, f) => {
+            bound_names(c, out);
+            bound_names(t, out);
+            bound_names(f, out);
+        }
+        E::Call(_, a, r) => {
+            a.iter().for_each(|x| bound_names(x, out));
+            if let Some(r) = r {
+                bound_names(r, out);
+            }
+        }
+        E::Let(_, bs, b) => {
+            bs.iter().for_each(|(n, x)| {
+                out.push(n.clone());
+                bound_names(x, out)
+            });
+            bound_names(b, out);
+        }
+        E::Assign(_, bs, b) => {
+            bs.iter().for_each(|(p, x)| {
+                p.names(out);
+                bound_names(x, out)
+            });
+            bound_names(b, out);
+        }
+        E::Lambda(_, p, b) => {
+            p.names(out);
+            bound_names(b, out);
+        }
+        E::Apply(f, a) => {
+            bound_names(f, out);
+            bound_names(a, out);
+        }
+        E::ApplyMod(_, a) => bound_names(a, out),
+    }
+}
+
+/// A generated program (helpers + main expression over the parameters) driven through the REPL:
+/// the helpers are entered as definitions, one per line, then
+///  - closed: the main expression with every parameter replaced by the quoted argument value;
+///  - open: the main expression itself, its parameters free.
+fn check_generated(st: &mut Stats, case: &crate::gen::Case, counters: &mut (u64, u64)) {
+    use crate::lang::{bind, subst, Prog, E, V};
+    let prog: &Prog = &case.prog;
+    let lines: Vec<String> = prog.helpers.iter().map(|h| h.text()).collect();
+    let defs_text = lines.join(" ");
+    let tag = case.tags.join("+");
+    let mut names = vec![];
+    prog.params.names(&mut names);
+    let mut shadow = vec![];
+    bound_names(&prog.body, &mut shadow);
+    let substitutable = !names.iter().any(|n| shadow.contains(n));
+    // closed: one expression per valuation
+    if substitutable {
+        for a in &case.args {
+            let mut env = vec![];
+            if bind(&prog.params, &V::from_t(a), &mut env).is_err() {
+                continue;
+            }
+            let mut ps = vec![];
+            let mut qs = vec![];
+            for (n, v) in &env {
+                if let Some(t) = v.to_t() {
+                    ps.push(n.clone());
+                    qs.push(E::Quote(t));
+                }
+            }
+            let expr = subst(&prog.body, &ps, &qs).text();
+            st.eval();
+            let (r, tr) = repl_history(&lines, &expr);
+            counters.0 += 1;
+            counters.1 += tr as u64;
+            let replay = json!({"kind": "c16", "defs": defs_text, "expr": expr});
+            match r {
+                ReplOut::Panic(p) => st.violation(&format!("repl-panic/{}", case.tags[0]), format!("definitions {} ; expression {}: {}", defs_text, expr, p), expr.len(), replay),
+                ReplOut::Error(e) => {
+                    st.outcome("repl-error(no claim)");
+                    st.count(&format!("repl-error[{}]", e.chars().take(40).collect::<String>()), 1);
+                }
+                ReplOut::Residual(_) => st.outcome("closed-residual(no claim)"),
+                ReplOut::Constant(c) => {
+                    st.outcome("closed-reduced-to-constant");
+                    let text = format!("(mod () {} {})", defs_text, expr);
+                    match compile_plain(&text) {
+                        Ok(code) => match consensus(&code, &T::nil()) {
+                            Out::Val(v) if v == c => {
+                                st.nontrivial(&(&defs_text, &expr));
+                                st.sample(json!({"definitions": defs_text, "expression": expr, "repl_constant": c.short(), "compiled_value": v.short()}));
+                            }
+                            Out::Val(_) if crate::progmc::reference(prog, a).ok().as_ref() == Some(&c) => {
+                                // the REPL's constant is what the source means; it is the compiled twin that is wrong (C01's findings)
+                                st.outcome("compiled-twin-differs-from-the-reference(C01's business, no claim)");
+                            }
+                            Out::Val(v) => {
+                                let cls = if tag.contains("destructure-call") || defs_text.contains("(@ ") { "constant-differs/@-capture".to_string() } else { format!("constant-differs/{}", case.tags[0]) };
+                                st.violation(&cls, format!("after {} the REPL reduces {} to {}, the compiled program {} returns {}", defs_text, expr, c.short(), text, v.short()), expr.len(), replay)
+                            }
+                            _ => st.count("compiled-program-has-no-value(no claim)", 1),
+                        },
+                        Err(e) => st.count(&format!("compiled-twin-rejected[{}]", e.chars().take(40).collect::<String>()), 1),
+                    }
+                }
+            }
+        }
+    }
+    // open: the parameters stay free
+    let expr = prog.body.text();
+    st.eval();
+    let (r, tr) = repl_history(&lines, &expr);
+    counters.0 += 1;
+    counters.1 += tr as u64;
+    let replay = json!({"kind": "c16", "defs": defs_text, "expr": expr, "params": prog.params.text()});
+    match r {
+        ReplOut::Panic(p) => st.violation(&format!("repl-panic/{}", case.tags[0]), format!("definitions {} ; expression {}: {}", defs_text, expr, p), expr.len(), replay),
+        ReplOut::Error(e) => {
+            st.outcome("repl-error(no claim)");
+            st.count(&format!("repl-error[{}]", e.chars().take(40).collect::<String>()), 1);
+        }
+        ReplOut::Constant(_) => st.outcome("open-reduced-to-constant(no claim)"),
+        ReplOut::Residual(res) => {
+            st.outcome("open-residual");
+            let orig = format!("(mod {} {} {})", prog.params.text(), defs_text, expr);
+            let resid = format!("(mod {} {} {})", prog.params.text(), defs_text, res);
+            let oc = match compile_plain(&orig) {
+                Ok(c) => c,
+                Err(_) => {
+                    st.count("original-rejected(no claim)", 1);
+                    return;
+                }
+            };
+            // F27's symptom: a branch of an `if` was compiled without knowledge of the free variables, so the
+            // residual contains a free variable's NAME as quoted data
+            let has_if = (expr.contains("(if ") || defs_text.contains("(if ")) && names.iter().any(|n| res.contains(&format!("(1 . {})", n)) || res.contains(&format!("(q . {})", n)));
+            match compile_plain(&resid) {
+                Err(e) => {
+                    let sig = if has_if { "evaluator/variables-in-if-branches-replaced-by-their-names".to_string() } else { format!("residual-does-not-compile/{}", case.tags[0]) };
+                    st.violation(&sig, format!("after {}: residual of {} is {}, which does not compile: {}", defs_text, expr, res, e), expr.len(), replay)
+                }
+                Ok(rc) => {
+                    for a in &case.args {
+                        if let Out::Val(v) = consensus(&oc, a) {
+                            match consensus(&rc, a) {
+                                Out::Val(w) if w == v => {
+                                    st.nontrivial(&(&defs_text, &expr, a));
+                                }
+                                Out::Limit => {}
+                                Out::Val(w) if crate::progmc::reference(prog, a).ok().as_ref() == Some(&w) => {
+                                    st.outcome("compiled-twin-differs-from-the-reference(C01's business, no claim)");
+                                }
+                                other => {
+                                    let sig = if has_if { "evaluator/variables-in-if-branches-replaced-by-their-names".to_string() } else { format!("residual-differs/{}", case.tags[0]) };
+                                    st.violation(&sig, format!("after {}: {} -> residual {}; on {} the original returns {}, the residual {}", defs_text, expr, res, a.short(), v.short(), other.short()), expr.len(), replay.clone());
                                 }
                             }
                         }
@@ -282,9 +451,48 @@ pub fn c16(thorough: bool, replay: Option<String>) -> i32 {
     });
     rep.states = st.counters.get("states").copied().unwrap_or(0);
     rep.transitions = st.counters.get("transitions").copied().unwrap_or(0);
-    rep.traces = rep.states;
     st.max_samples = 4;
     let total_orders: usize = ps.iter().map(|p| orders(&p.defs).len()).sum();
     rep.add_sub("repl-histories", &format!("{} definition pools with {} define-before-use orders in total x {} expressions (closed and open)", ps.len(), total_orders, n), n, true, capped, st);
+
+    // generated programs: the definitions and main expressions of C01's exhaustively enumerated families
+    {
+        use crate::gen::*;
+        let mut cases: Vec<Case> = vec![];
+        for c in scope_chains(if thorough { 2 } else { 1 }) {
+            cases.push(scope_case(&c, NamePolicy::Fresh, None));
+        }
+        if !thorough {
+            // chains of two binders where a function call (plain, destructuring with (@ ..) capture, &rest) is followed by a conditional or a let
+            for c in scope_chains(2) {
+                let kinds: Vec<&str> = c.iter().map(|(b, _)| BINDERS[*b]).collect();
+                if c.len() == 2 && ["defun", "inline", "destructure-call", "rest-call"].contains(&kinds[0]) && ["if-branch", "let", "destructure-call"].contains(&kinds[1]) {
+                    cases.push(scope_case(&c, NamePolicy::Fresh, None));
+                }
+            }
+        }
+        let flat: Vec<usize> = if thorough { vec![1, 2, 3, 8, 17] } else { vec![2, 3] };
+        for p in param_patterns(if thorough { 4 } else { 3 }, &flat) {
+            for kind in ["defun-positional", "inline-positional", "defun-rest", "inline-rest", "defun-rest-if", "inline-rest-if"] {
+                if let Some(c) = params_case(&p, kind, None) {
+                    cases.push(c);
+                }
+            }
+        }
+        cases.extend(calls_cases(None, if thorough { 3 } else { 2 }));
+        cases.extend(nested_cases(None));
+        let n = cases.len() as u64;
+        let (mut st, capped) = par_range(n, 4, cap, || (0u64, 0u64), |c, st, i| {
+            let before = *c;
+            check_generated(st, &cases[i as usize], c);
+            st.count("states", c.0 - before.0);
+            st.count("transitions", c.1 - before.1);
+        });
+        rep.states += st.counters.get("states").copied().unwrap_or(0);
+        rep.transitions += st.counters.get("transitions").copied().unwrap_or(0);
+        rep.traces = rep.states;
+        st.max_samples = 4;
+        rep.add_sub("generated-programs", &format!("{} generated programs (binder chains, every parameter shape incl. (@ name pattern) captures in defun / inline via positional and &rest calls, call graphs, nested modules): helpers entered as definitions line by line, then the main expression closed over each argument valuation (parameters replaced by quoted values) and open (parameters free)", n), n, true, capped, st);
+    }
     rep.finish()
 }
